@@ -10,7 +10,8 @@ Require Import MRB.Base.ListAux MRB.Model.Types MRB.Model.Seq MRB.Model.KernelM.
 
 (** places an item can live in: a cell of the buffer, an element of the caller's source slice, of the caller's destination *)
 Inductive loc := LBuf (i : nat) | LSrc (i : nat) | LDst (i : nat).
-Inductive region := RBuf | RSrc | RDst.
+(** [RBufV len]: a slice of the DOUBLE MAPPING of the vmem build - addresses [0, 2*len) of which [a] and [a + len] are the same cell *)
+Inductive region := RBuf | RSrc | RDst | RBufV (len : nat).
 (** a raw slice: region, first element, number of elements *)
 Record sl := mkSl { s_reg : region; s_off : nat; s_len : nat }.
 
@@ -125,12 +126,21 @@ Definition raw_parts (p : loc) (n : nat) : DM sl :=
            | LBuf o => if o + n <=? length (d_slots d) then Some (mkSl RBuf o n, d) else None
            | _ => None
            end.
+(** the vmem build: [slice::from_raw_parts(_mut)(p, n)] over the double mapping - the range lies inside the [2*len] mapped cells *)
+Definition raw_parts_v (p : loc) (n : nat) : DM sl :=
+  fun d => match p with
+           | LBuf o => if o + n <=? 2 * length (d_slots d) then Some (mkSl (RBufV (length (d_slots d))) o n, d) else None
+           | _ => None
+           end.
 Definition empty_sl : sl := mkSl RBuf 0 0.
 Definition src_sl (E : denv) : sl := mkSl RSrc 0 (length (dn_src E)).
 Definition out_sl : DM sl := fun d => Some (mkSl RDst 0 (length (d_out d)), d).
 
 Definition sl_at (s : sl) (j : nat) : loc :=
-  match s_reg s with RBuf => LBuf (s_off s + j) | RSrc => LSrc (s_off s + j) | RDst => LDst (s_off s + j) end.
+  match s_reg s with
+  | RBuf => LBuf (s_off s + j) | RSrc => LSrc (s_off s + j) | RDst => LDst (s_off s + j)
+  | RBufV len => LBuf ((s_off s + j) mod len)
+  end.
 (** [s.get_unchecked(..mid)] / [s.get_unchecked(mid..)] (also [_mut]): undefined outside the slice *)
 Definition sl_prefix (s : sl) (mid : nat) : DM sl :=
   if mid <=? s_len s then dret (mkSl (s_reg s) (s_off s) mid) else dfail.
